@@ -7,6 +7,18 @@ pub(crate) fn pow_word_base(base: Word, exp: usize) -> Repr
 @*/
 {
     debug_assert!(exp > 1);
+    /*@ let ghost e0 = exp as int; let ghost bi = base as int;
+        proof {
+            lemma_ipow_zero(e0); lemma_ipow_one(e0); lemma_pow2_ipow(e0);
+            lemma_pow2_base_exp(e0, 1);
+            if base != 0 && (base & ((base - 1) as Word)) == 0 {
+                lemma_word_pow2_tz(base);
+                let t = pow_word_tz(base) as int;
+                lemma_pow2_base_exp(e0, t);
+                lemma_pow2_ipow(t); lemma_ipow_mul(2, t, e0); lemma_pow2_ipow(t * e0);
+                assert(e0 * t == t * e0) by (nonlinear_arith);
+            }
+        } @*/
     match base {
         0 => return Repr::zero(),
         1 => return Repr::one(),
@@ -21,6 +33,16 @@ pub(crate) fn pow_word_base(base: Word, exp: usize) -> Repr
 
     // lift the base to a full word and some shortcuts
     let (wexp, wbase) = max_exp_in_word(base);
+    /*@ let ghost we = wexp as int; let ghost wb = wbase as int;
+        proof {
+            lemma_ipow_pos(bi, we);
+            if e0 < we { lemma_ipow_mono(bi, e0, we); }
+            else if e0 < 2 * we {
+                lemma_ipow_mono(bi, e0 - we, we);
+                lemma_ipow_add(bi, we, e0 - we);
+                lemma_word_prod_fits(wb, ipow(bi, e0 - we));
+            }
+        } @*/
     if exp < wexp {
         return Repr::from_word(base.pow(exp as u32));
     } else if exp < 2 * wexp {
@@ -30,6 +52,17 @@ pub(crate) fn pow_word_base(base: Word, exp: usize) -> Repr
 
     // by now wexp / exp >= 2, result = wbase ^ (wexp / exp) * base ^ (wexp % exp)
     let (exp, exp_rem) = exp.div_rem(wexp);
+    /*@ let ghost ee = exp as int; let ghost er = exp_rem as int;
+        proof {
+            lemma_pow_split(e0, we, ee, er);
+            lemma_ipow_mul(bi, we, ee);          // wb^ee == base^(we*ee)
+            lemma_ipow_add(bi, we * ee, er);     // base^(we*ee) * base^er == base^e0
+            lemma_ipow_mono(bi, er, we);         // base^er <= wb fits a word
+            assert forall|r: u32| 1 <= r <= usize::BITS && #[trigger] (exp >> ((r - 1) as u32)) == 1 implies r >= 2 by {
+                lemma_bit_len_ge2(exp, r);
+            }
+            lemma_word_prod_fits(wb, wb);
+        } @*/
     let mut res = Buffer::allocate(exp + 1); // result is at most exp + 1 words
     let mut allocation = MemoryAllocation::new(
         memory::add_layout(
@@ -44,13 +77,32 @@ pub(crate) fn pow_word_base(base: Word, exp: usize) -> Repr
     let (lo, hi) = split_dword(extend_word(wbase) * extend_word(wbase));
     res.push(lo);
     res.push(hi);
+    /*@ proof { lemma_val2(res@); lemma_ipow_2(wb); } @*/
 
-    loop {
+    loop
+    /*@
+        invariant_except_break
+            p + 1 < usize::BITS, (exp >> ((p + 1) as u32)) >= 1,
+            val(res@) == ipow(wb, 2 * ((exp >> ((p + 1) as u32)) as int)),
+            2 <= res@.len() <= 2 * ((exp >> ((p + 1) as u32)) as int),
+        invariant
+            exp >= 2, exp < max_capacity(), wb == wbase as int, wb >= 1, res.capacity() >= exp + 1,
+        ensures
+            val(res@) == ipow(wb, exp as int), 2 <= res@.len() <= exp,
+        decreases p
+    @*/
+    {
+        /*@ let ghost k = (exp >> ((p + 1) as u32)) as int;
+            proof { lemma_pow_bits(exp, p); } @*/
         if exp & (1 << p) != 0 {
             let carry = mul::mul_word_in_place(&mut res, wbase);
+            /*@ let ghost r1 = res@; @*/
             res.push_resizing(carry); // actually never resize
+            /*@ proof { lemma_val_push(r1, carry); lemma_ipow_succ(wb, 2 * k); } @*/
         }
+        /*@ proof { assert(val(res@) == ipow(wb, (exp >> p) as int)); } @*/
         if p == 0 {
+            /*@ proof { lemma_shr0(exp); } @*/
             break;
         }
         p -= 1;
@@ -58,13 +110,20 @@ pub(crate) fn pow_word_base(base: Word, exp: usize) -> Repr
         // res = square(res)
         let (tmp, mut memory) = memory.allocate_slice_copy(&res);
         res.fill(0);
+        /*@ let ghost z0 = res@; @*/
         res.push_zeros(res.len());
+        /*@ proof { assert(forall|i: int| 0 <= i < res@.len() ==> res@[i] == 0) by {
+                assert(forall|i: int| 0 <= i < z0.len() ==> #[trigger] (z0 + zeros(z0.len() as int))[i] == z0[i]);
+            } } @*/
         sqr::sqr(&mut res, tmp, &mut memory);
+        /*@ proof { lemma_ipow_double(wb, (exp >> ((p + 1) as u32)) as int); } @*/
     }
 
     // carry out the remaining multiplications
     let pow_rem = base.pow(exp_rem as u32);
     let carry = mul::mul_word_in_place(&mut res, pow_rem);
+    /*@ let ghost r1 = res@; @*/
     res.push_resizing(carry);
+    /*@ proof { lemma_val_push(r1, carry); } @*/
     Repr::from_buffer(res)
 }
